@@ -55,11 +55,19 @@ def oracle(line, out):
     boundary, charset, chunks = info
     if out.startswith("crash"):
         return "non-HTTP error: %s" % out[:60]
-    exp = M.ref_parse(b"".join(chunks), boundary, charset)
+    res, held = out.rsplit(" held=", 1)
+    held, dheld = held.split(" dheld=")
+    held, dheld = int(held), int(dheld)
+    body = b"".join(chunks)
+    # arbitrary input: while part data is streamed the decoder keeps at most a line break, '--boundary' and
+    # one dash / the padding blanks being received (Props/C15.lean: streaming_buffer_bound)
+    pad = max([len(m) for m in __import__("re").findall(rb"[ \t\x0b\x0c]+", body)] + [0])
+    if dheld > len(boundary) + 5 + pad:
+        return ("decoder held back %d bytes of part data after a chunk (bound %d = len(boundary) + 5 + padding %d)"
+                % (dheld, len(boundary) + 5 + pad, pad))
+    exp = M.ref_parse(body, boundary, charset)
     if exp is None:
         return None
-    res, held = out.rsplit(" held=", 1)
-    held = int(held)
     max_parts = int(a[3])
     max_mem = None if a[4] == "none" else int(a[4])
     over = len(exp["items"]) > max_parts or (max_mem is not None and exp["field_bytes"] > max_mem)
@@ -124,6 +132,23 @@ def cases(rng, tier):
         fb = sum(len(p.content) for p in parts if p.filename is None)
         mm = rng.choice([None, fb, max(fb - 1, 0), 100])
         yield _stream(rng.choice(["mp_stream", "mp_astream"]), b, "utf8", 324, mm, chunks)
+    yield from _adversarial(rng, tier)
+
+
+def _adversarial(rng, tier):
+    """bodies outside the well-formed class: '--boundary' at the start of a data line followed by junk"""
+    n = 60 if tier == "quick" else 600
+    for _ in range(n):
+        b = rng.choice([b"bd", b"-", b"X" * 20])
+        junk = rng.choice([b"X", b"x-", b"-x", b"--x", b" x", b"\tq", b"=", b"-\r", b"- -"])
+        lb = rng.choice([b"\r\n", b"\n", b"\r"])
+        run = bytes([rng.choice(b"xy")]) * rng.choice([200, 900, 2500])
+        content = rng.choice([b"", b"a", b"\r"]) + lb + b"--" + b + junk + run + rng.choice([b"", b"\r\n", b"\r"])
+        parts = [M.Part("up", content, rng.choice(["big.bin", None]), [])]
+        body = M.encode_form(b, parts)
+        size = rng.choice([1, 5, 64, 300])
+        chunks = [body[i:i + size] for i in range(0, len(body), size)]
+        yield _stream(rng.choice(["mp_stream", "mp_astream"]), b, "utf8", 324, rng.choice([None, 50]), chunks)
 
 
 # ---- extra: megabyte uploads against the real code only (too long for the list-based model) ---------
@@ -134,7 +159,7 @@ def extra(rng, tier):
     runs = 0
     sizes = [256 * 1024, 1024 * 1024] if tier == "quick" else [256 * 1024, 1024 * 1024, 2 * 1024 * 1024]
     for size in sizes:
-        for lead in (b"\r", b"\n", b"", b"\r\n-"):
+        for lead in (b"\r", b"\n", b"", b"\r\n-", b"a\r\n--bigboundaryX", b"\n--bigboundary="):
             for chunk in (4096, 65536):
                 for is_async in (False, True):
                     for is_file in (True, False):
